@@ -620,9 +620,12 @@ func (t *Translator) doReturn(st *State, in *ssa.Return) {
 		} else {
 			v = t.val(st, r)
 		}
-		extra[t.resultNames[i]] = binding{v, &SType{Go: t.fn.Signature.Results().At(i).Type()}}
+		extra[t.resultNames[i]] = binding{term: v, typ: &SType{Go: t.fn.Signature.Results().At(i).Type()}}
 	}
 	env := t.env(st, t.entry.heap, extra)
+	if t.spec.SortSlice != nil && len(t.fn.Params) >= 2 && len(in.Results) == 1 {
+		t.sortClosureObligations(st, env, extra[t.resultNames[0]].term, pos)
+	}
 	for _, c := range t.spec.Ensures {
 		if c.Free {
 			continue
